@@ -412,6 +412,28 @@ def jn(x):
     return json.loads(json.dumps(x, default=str))
 
 
+class CachedAtomsImplWorld(ImplWorld):
+    """the Python side keeps the atom objects it once obtained (module-level constants such as TOM = yp.atom('tom')) and
+    goes on using them after clear(): atoms are compared by name, so that is as good as asking again"""
+
+    def op_engine(self, e):
+        r = super().op_engine(e)
+        yp = self.eng[e]
+        orig, cache = yp.atom, {}
+        yp.atom = lambda name: cache.setdefault(name, orig(name))     # used by the harness's term builder only
+        for n in ('a', 'b', 'c', '[]', 'p', 'q', 'flag', 'z', 'eq', 'ne'):
+            yp.atom(n)                  # the constants exist from the start (before any clear())
+        return r
+
+    def op_clear(self, e):
+        r = super().op_clear(e)
+        yp = self.eng[e]
+        # clear() rebuilt the context from self.atom, which is the caching function above: compiled code must go on
+        # asking the engine itself
+        yp.eval_context['atom'] = type(yp).atom.__get__(yp)
+        return r
+
+
 class FileLoadImplWorld(ImplWorld):
     """scripts reach the engine through load_script_from_file: every engine has ONE script file that is rewritten for
     each load, always with the same modification time (a deployment that unpacks archives, or several loads within
